@@ -356,3 +356,97 @@ class Gen:
 
 def random_program(rnd, throwy=False):
     return Gen(rnd, throwy=throwy).program()
+
+
+# ------------------------------------------------------------------------------------------------
+# Closure-heavy programs for C15: many locals, parameters, captured and pass-through variables,
+# named function expressions, `arguments`, several activations.  All data values are integers;
+# closures live in variables whose names start with "h" and are only called.
+# ------------------------------------------------------------------------------------------------
+class ClosureGen:
+    NAMES = ["alpha", "beta", "gamma", "delta", "eps", "zeta", "eta", "theta", "iota", "kappa", "lam", "mu", "nu", "xi",
+             "omi", "pi", "rho", "sigma", "tau", "ups", "phi", "chi", "psi", "omega"]
+
+    def __init__(self, rnd):
+        self.r = rnd
+        self.uid = 0
+
+    def fresh(self, p=None):
+        self.uid += 1
+        return "%s%d" % (p or self.r.choice(self.NAMES), self.uid)
+
+    def int_expr(self, ints, depth=0):
+        if depth >= 2 or not ints or self.r.random() < 0.3:
+            return Num(self.r.randrange(0, 10)) if (not ints or self.r.random() < 0.4) else Var(self.r.choice(ints))
+        return Bin(self.r.choice(["+", "-"]), self.int_expr(ints, depth + 1), self.int_expr(ints, depth + 1))
+
+    def function(self, depth, outer_ints, name=""):
+        """returns a Fun expression: params, locals, inner closures (some exported into the global array G), returns an int"""
+        params = [self.fresh() for _ in range(self.r.randrange(0, 4))]
+        locs = [self.fresh() for _ in range(self.r.randrange(1, 6))]
+        own = params + locs
+        ints = own + outer_ints
+        body = [SVar(*[(x, self.int_expr(params + outer_ints, 1)) for x in locs])]
+        hs = []
+        for _ in range(self.r.randrange(0, 3) if depth < 2 else 0):
+            h = self.fresh("h")
+            fname = self.fresh("nf") if self.r.random() < 0.3 else ""
+            inner = self.function(depth + 1, ints, fname)
+            if self.r.random() < 0.3 and not fname:
+                inner_decl = SFun(h, inner["params"], inner["body"])
+                body.append(inner_decl)
+            else:
+                body.append(SVar((h, inner)))
+            hs.append((h, len(inner["params"])))
+        for _ in range(self.r.randrange(1, 5)):
+            k = self.r.random()
+            if k < 0.35:
+                body.append(SExpr(Asg(self.r.choice(ints), self.int_expr(ints))))
+            elif k < 0.5:
+                body.append(SExpr(Upd(self.r.choice(["++", "--"]), self.r.random() < 0.5, self.r.choice(ints))))
+            elif k < 0.65:
+                body.append(SLog(self.int_expr(ints)))
+            elif k < 0.8 and hs:
+                h, n = self.r.choice(hs)
+                body.append(SLog(Call(Var(h), [self.int_expr(ints, 1) for _ in range(n)])))
+            elif k < 0.9 and hs:
+                h, n = self.r.choice(hs)
+                body.append(SExpr(Call(Dot(Var("G"), "push"), [Var(h)])))
+                self.exported.append(n)
+            elif k < 0.95:
+                body.append(SLog(Dot(Var("arguments"), "length")))
+            else:
+                body.append(SLog(Cond(Bin(">", Dot(Var("arguments"), "length"), Num(0)), Mem(Var("arguments"), Num(0)), Num(-1 + 1))))
+        if name and self.r.random() < 0.5:
+            body.append(SLog(Un("typeof", Var(name))))
+        body.append(SRet(self.int_expr(ints)))
+        return Fun(name, params, body)
+
+    def program(self):
+        self.exported = []
+        gl = [self.fresh() for _ in range(self.r.randrange(1, 4))]
+        body = [SVar(("G", Arr([]))), SVar(*[(g, Num(self.r.randrange(0, 5))) for g in gl])]
+        tops = []
+        for _ in range(self.r.randrange(1, 4)):
+            name = self.fresh("top")
+            f = self.function(0, gl)
+            body.append(SFun(name, f["params"], f["body"]))
+            tops.append((name, len(f["params"])))
+        for _ in range(self.r.randrange(2, 5)):
+            name, n = self.r.choice(tops)
+            nargs = n if self.r.random() < 0.7 else self.r.randrange(n, n + 3)          # extra arguments are visible in `arguments`
+            body.append(SLog(Call(Var(name), [Num(self.r.randrange(0, 10)) for _ in range(nargs)])))
+        # call what the activations exported, in a shuffled order, some of them twice
+        calls = []
+        for i, n in enumerate(self.exported[:6]):
+            calls.append(SIf(Bin(">", Dot(Var("G"), "length"), Num(i)),
+                             SBlock([SLog(Call(Mem(Var("G"), Num(i)), [Num(self.r.randrange(0, 10)) for _ in range(n)]))])))
+        calls = calls + calls[:2]
+        self.r.shuffle(calls)
+        body += calls
+        body.append(SExpr(Var(gl[0])))
+        return Prog(body)
+
+
+def closure_program(rnd):
+    return ClosureGen(rnd).program()
